@@ -1,6 +1,1129 @@
+//! C12 — every scalar value survives serialization and deserialization unchanged.
+//!
+//! Oracle (on every execution): for a scalar v of kind T put into position P and serialized with
+//! option vector o,
+//!   1. `to_string_with_options` succeeds and does not panic;
+//!   2. `from_str::<Container<T>>(text) == container(v)` — strings char for char, floats bit for
+//!      bit (all NaNs equal);
+//!   3. `from_str::<Val>(text)` (untyped reader) equals the expected untyped tree: a string comes
+//!      back as `Val::Str(s)` (never null / number / bool), a string key as a `Val::Str` key (no
+//!      merge, no document end), the surrounding guard scalars are untouched;
+//!   4. an emitted float token matches `-?[0-9]+\.[0-9]+(e[+-][0-9]+)?|-?\.inf|\.nan`.
+//! The only reference is the value itself; nothing of the emitter's decision logic is re-implemented
+//! for the verdict (style detection is used only to name the failing class in the signature).
+
+mod gens;
+mod kinds;
+mod shapes;
+
+use kinds::*;
+use serde::Serialize;
+use serde::de::DeserializeOwned;
+use serde_json::{Value as J, json};
+use serde_saphyr::{FlowMap, FlowSeq};
+use shapes::*;
+use std::cell::RefCell;
+use std::collections::{BTreeMap, BTreeSet, HashMap};
+use std::fmt::Debug;
+use std::sync::Mutex;
+use vcore::rng::{Rng, fnv_parts};
+use vcore::run::{Finish, Run, Tier, par_range};
 use vcore::val::Val;
-fn main() {
-    for t in ["y\n", "yes\n", "On\n", "%YAML 1.2\n---\ny\n", "- y\n", "y: 1\n", "0o7\n", "0x1f\n", "1_0\n", "+.inf\n", ".NaN\n", "~\n", "Null\n", "TRUE\n", "0b1\n", "1e3\n", "007\n", "+1\n", "1.\n", ".5\n", "0x_\n", "-0x1\n", "1__0\n", "_1\n", "1:20\n", "1_000.5\n", "=\n", "2001-01-01\n", "NULL\n", "nULL\n", "oN\n", "0.\n", "-.5e3\n", "1e+3\n", ".e3\n", "+.5\n", "1E3\n", "infinity\n", "-Infinity\n", "NaN\n", "nan\n", "Inf\n", ".Inf\n", ".INF\n", "+.INF\n", "0o8\n", "0_\n"] {
-        println!("{t:?} -> {:?}", serde_saphyr::from_str::<Val>(t).map_err(|e| vcore::errs::kind(&e)));
+
+// ------------------------------------------------------------------ per-worker context
+
+struct Cx<'a> {
+    run: &'a Run,
+    local: BTreeMap<&'static str, u64>,
+    contexts: BTreeSet<(&'static str, &'static str)>,
+    emit_only: bool,
+    emitted: Option<String>,
+    evals: u64,
+    sig_local: HashMap<String, u64>,
+    sig_pos_local: HashMap<String, u64>,
+}
+
+/// How many cases of one signature are handed to `Run::violation` (the rest are only counted):
+/// `Run::violation` keeps every distinct case key, which is quadratic for classes with millions of members.
+const REPORT_PER_SIGNATURE: u64 = 6;
+static SIG_COUNTS: Mutex<BTreeMap<String, u64>> = Mutex::new(BTreeMap::new());
+static SIG_POS_COUNTS: Mutex<BTreeMap<String, u64>> = Mutex::new(BTreeMap::new());
+static SIG_REPORTED: Mutex<BTreeMap<String, u64>> = Mutex::new(BTreeMap::new());
+thread_local! {
+    static SIG_DONE: RefCell<std::collections::HashSet<String>> = RefCell::new(std::collections::HashSet::new());
+}
+
+impl<'a> Cx<'a> {
+    fn new(run: &'a Run) -> Self {
+        Cx { run, local: BTreeMap::new(), contexts: BTreeSet::new(), emit_only: false, emitted: None, evals: 0, sig_local: HashMap::new(), sig_pos_local: HashMap::new() }
     }
+    #[inline]
+    fn bump(&mut self, k: &'static str) {
+        *self.local.entry(k).or_insert(0) += 1;
+    }
+    fn flush(&mut self) {
+        self.run.evals(self.evals);
+        self.evals = 0;
+        self.run.count_map(&self.local);
+        self.local.clear();
+        for c in std::mem::take(&mut self.contexts) {
+            self.run.observe("emitter_contexts(position-kind:style)", &format!("{}:{}", c.0, c.1));
+        }
+        if !self.sig_pos_local.is_empty() {
+            let mut m = SIG_POS_COUNTS.lock().unwrap();
+            for (k, n) in self.sig_pos_local.drain() {
+                *m.entry(k).or_insert(0) += n;
+            }
+        }
+        if !self.sig_local.is_empty() {
+            let mut m = SIG_COUNTS.lock().unwrap();
+            for (k, n) in self.sig_local.drain() {
+                *m.entry(k).or_insert(0) += n;
+            }
+        }
+    }
+    fn violation(&mut self, sig: &str, case: impl FnOnce() -> J, detail: impl FnOnce() -> String) {
+        match self.sig_local.get_mut(sig) {
+            Some(n) => *n += 1,
+            None => {
+                self.sig_local.insert(sig.to_string(), 1);
+            }
+        }
+        if SIG_DONE.with(|d| d.borrow().contains(sig)) {
+            return;
+        }
+        let n = {
+            let mut m = SIG_REPORTED.lock().unwrap();
+            let e = m.entry(sig.to_string()).or_insert(0);
+            *e += 1;
+            *e
+        };
+        if n <= REPORT_PER_SIGNATURE {
+            let d = detail();
+            if std::env::var_os("C12_DUMP").is_some() {
+                eprintln!("[c12] {sig}\n      {d}");
+            }
+            self.run.violation(sig, case(), d);
+        } else {
+            SIG_DONE.with(|d| d.borrow_mut().insert(sig.to_string()));
+        }
+    }
+    fn failures_so_far(&self) -> u64 {
+        self.sig_local.values().sum()
+    }
+}
+impl Drop for Cx<'_> {
+    fn drop(&mut self) {
+        self.flush();
+    }
+}
+
+// ------------------------------------------------------------------ untyped comparison
+
+fn val_matches(exp: &Val, got: &Val) -> bool {
+    match (exp, got) {
+        (Val::F(m), Val::F(_)) if *m == ANY_FLOAT_MARK => true,
+        (Val::Seq(a), Val::Seq(b)) => a.len() == b.len() && a.iter().zip(b).all(|(x, y)| val_matches(x, y)),
+        (Val::Map(a), Val::Map(b)) => {
+            a.len() == b.len() && a.iter().zip(b).all(|((k1, v1), (k2, v2))| val_matches(k1, k2) && val_matches(v1, v2))
+        }
+        _ => exp == got,
+    }
+}
+
+/// Name what the untyped reader made of the first node that differs.
+fn untyped_symptom(exp: &Val, got: &Val) -> &'static str {
+    match (exp, got) {
+        (Val::Seq(a), Val::Seq(b)) if a.len() == b.len() => {
+            for (x, y) in a.iter().zip(b) {
+                if !val_matches(x, y) {
+                    return untyped_symptom(x, y);
+                }
+            }
+            "untyped-structure"
+        }
+        (Val::Map(a), Val::Map(b)) if a.len() == b.len() => {
+            for ((k1, v1), (k2, v2)) in a.iter().zip(b) {
+                if !val_matches(k1, k2) {
+                    return untyped_symptom(k1, k2);
+                }
+                if !val_matches(v1, v2) {
+                    return untyped_symptom(v1, v2);
+                }
+            }
+            "untyped-structure"
+        }
+        (Val::Seq(_), _) | (Val::Map(_), _) | (_, Val::Seq(_)) | (_, Val::Map(_)) => "untyped-structure",
+        (_, Val::Null) => "reads-as-null",
+        (Val::Str(_), Val::Bool(_)) => "reads-as-bool",
+        (Val::Str(_), Val::Int(_)) | (Val::Str(_), Val::F(_)) => "reads-as-number",
+        (Val::Str(_), Val::Str(b)) if matches!(b.as_str(), ".nan" | ".inf" | "-.inf") => "reads-as-special-float",
+        (Val::Str(_), Val::Str(_)) => "reads-as-other-string",
+        (Val::F(_), Val::Int(_)) => "float-reads-as-int",
+        (Val::F(_), Val::Str(_)) => "float-reads-as-string",
+        _ => "untyped-differs",
+    }
+}
+
+// ------------------------------------------------------------------ float grammar
+
+/// `-?[0-9]+\.[0-9]+(e[+-][0-9]+)?|-?\.inf|\.nan`
+fn float_grammar(tok: &str) -> bool {
+    if tok == ".nan" || tok == ".inf" || tok == "-.inf" {
+        return true;
+    }
+    let b = tok.as_bytes();
+    let mut i = 0;
+    if i < b.len() && b[i] == b'-' {
+        i += 1;
+    }
+    let d0 = i;
+    while i < b.len() && b[i].is_ascii_digit() {
+        i += 1;
+    }
+    if i == d0 || i >= b.len() || b[i] != b'.' {
+        return false;
+    }
+    i += 1;
+    let d1 = i;
+    while i < b.len() && b[i].is_ascii_digit() {
+        i += 1;
+    }
+    if i == d1 {
+        return false;
+    }
+    if i == b.len() {
+        return true;
+    }
+    if b[i] != b'e' {
+        return false;
+    }
+    i += 1;
+    if i >= b.len() || !(b[i] == b'+' || b[i] == b'-') {
+        return false;
+    }
+    i += 1;
+    let d2 = i;
+    while i < b.len() && b[i].is_ascii_digit() {
+        i += 1;
+    }
+    i > d2 && i == b.len()
+}
+
+// ------------------------------------------------------------------ where the scalar starts
+
+thread_local! {
+    static PREFIX: RefCell<HashMap<(&'static str, Pos, Ov), Option<usize>>> = RefCell::new(HashMap::new());
+}
+
+/// Byte offset at which the scalar's token starts in the emitted text for (kind, position, options):
+/// found by emitting a placeholder value of the same kind. Everything before the scalar is written
+/// before the emitter has seen the value, so the offset is the same for every value.
+fn prefix_offset<T: Scalar>(run: &Run, pos: Pos, ov: Ov) -> Option<usize> {
+    if let Some(x) = PREFIX.with(|p| p.borrow().get(&(T::KIND, pos, ov)).copied()) {
+        return x;
+    }
+    let (pv, toks) = T::placeholder();
+    let mut cx = Cx::new(run);
+    cx.emit_only = true;
+    check_pos(&mut cx, &pv, pos, ov);
+    let off = cx.emitted.take().and_then(|t| toks.iter().filter_map(|tok| t.find(tok)).min());
+    cx.local.clear();
+    cx.evals = 0;
+    drop(cx);
+    PREFIX.with(|p| p.borrow_mut().insert((T::KIND, pos, ov), off));
+    off
+}
+
+#[derive(Clone, Copy, PartialEq, Eq, Debug)]
+enum Style {
+    Plain,
+    Single,
+    Double,
+    Literal,
+    Folded,
+    Unknown,
+}
+impl Style {
+    fn name(self) -> &'static str {
+        match self {
+            Style::Plain => "plain",
+            Style::Single => "single-quoted",
+            Style::Double => "double-quoted",
+            Style::Literal => "literal",
+            Style::Folded => "folded",
+            Style::Unknown => "unknown-style",
+        }
+    }
+}
+fn style_at(text: &str, off: Option<usize>) -> Style {
+    let Some(off) = off else { return Style::Unknown };
+    match text.as_bytes().get(off) {
+        Some(b'"') => Style::Double,
+        Some(b'\'') => Style::Single,
+        Some(b'|') => Style::Literal,
+        Some(b'>') => Style::Folded,
+        Some(_) => Style::Plain,
+        None => Style::Unknown,
+    }
+}
+
+// ------------------------------------------------------------------ the round trip
+
+struct Fail {
+    symptom: &'static str,
+    detail: String,
+}
+
+const YAML12_DIRECTIVE: &str = "%YAML 1.2\n";
+
+fn is_yaml11_only_bool(s: &str) -> bool {
+    let l = s.trim().to_ascii_lowercase();
+    matches!(l.as_str(), "yes" | "no" | "on" | "off" | "y" | "n")
+}
+
+fn clip(s: &str) -> String {
+    if s.chars().count() <= 300 {
+        format!("{s:?}")
+    } else {
+        let head: String = s.chars().take(200).collect();
+        let tail: String = s.chars().rev().take(60).collect::<Vec<_>>().into_iter().rev().collect();
+        format!("{head:?}…{tail:?} ({} chars)", s.chars().count())
+    }
+}
+
+fn rt<T: Scalar, C: Serialize + DeserializeOwned + PartialEq + Debug>(cx: &mut Cx, v: &T, pos: Pos, ov: Ov, c: &C, expect: Option<Val>) {
+    let case = || json!({"kind": T::KIND, "value": v.to_json(), "pos": pos.name(), "ov": ov.json()});
+    // ---- 1. serialize
+    let ser = vcore::obs::catch(|| serde_saphyr::to_string_with_options(c, ov.opts()));
+    if cx.emit_only {
+        cx.emitted = ser.ok().and_then(|r| r.ok());
+        return;
+    }
+    cx.evals += 1;
+    let mut text = match ser {
+        Err(p) => {
+            cx.violation(&format!("C12:panic:{}", vcore::obs::panic_site(&p)), case, || format!("serializer panicked: {p}"));
+            return;
+        }
+        Ok(Err(e)) => {
+            let msg = e.to_string();
+            let class: String = msg.chars().take(48).map(|c| if c.is_ascii_alphanumeric() { c.to_ascii_lowercase() } else { '-' }).collect();
+            cx.violation(&format!("C12:{}:serialize-error:{class}", T::KIND), case, || format!("to_string_with_options failed: {msg}"));
+            return;
+        }
+        Ok(Ok(t)) => t,
+    };
+    // style of the emitted scalar (for the evidence and for naming the failing class)
+    let mut scalar_off: Option<usize> = None;
+    let style = if T::KIND == "string" || T::KIND == "char" || T::KIND == "option-string" {
+        scalar_off = prefix_offset::<T>(cx.run, pos, ov);
+        let st = style_at(&text, scalar_off);
+        cx.contexts.insert((pos.kind(), st.name()));
+        cx.bump(match st {
+            Style::Plain => "style/plain",
+            Style::Single => "style/single-quoted",
+            Style::Double => "style/double-quoted",
+            Style::Literal => "style/literal-block",
+            Style::Folded => "style/folded-block",
+            Style::Unknown => "style/unknown",
+        });
+        st
+    } else {
+        Style::Unknown
+    };
+    // ---- 4. float grammar (on the text as emitted)
+    let mut fail: Option<Fail> = None;
+    if T::FLOAT {
+        match prefix_offset::<T>(cx.run, pos, ov) {
+            Some(off) if off <= text.len() && text.is_char_boundary(off) => {
+                let rest = &text[off..];
+                let end = rest.find([' ', '\n', ',', ']', '}', ':']).unwrap_or(rest.len());
+                let tok = &rest[..end];
+                cx.bump("float_tokens_checked_against_grammar");
+                if !float_grammar(tok) {
+                    fail = Some(Fail {
+                        symptom: "float-grammar",
+                        detail: format!("emitted float token {tok:?} does not match -?[0-9]+\\.[0-9]+(e[+-][0-9]+)?|-?\\.inf|\\.nan"),
+                    });
+                }
+            }
+            _ => cx.run.inconclusive("float token not located in emitted text"),
+        }
+    }
+    // ---- yaml_12: a directive must be followed by an explicit document start
+    if text.starts_with(YAML12_DIRECTIVE) && text[YAML12_DIRECTIVE.len()..].lines().next() != Some("---") {
+        let t0 = text.clone();
+        cx.violation("C12:yaml12:directive-without-document-start", case, || {
+            let r = serde_saphyr::from_str::<Val>(&t0).map_err(|e| e.without_snippet().to_string());
+            format!(
+                "yaml_12 output {} starts with a %YAML directive but no '---' follows; reading it back gives {:?}",
+                clip(&t0),
+                r.map(|v| v.to_string())
+            )
+        });
+        cx.bump("yaml12_directive_without_document_start");
+        // Continue with the document the directive was meant to introduce, so that the other
+        // oracles still see what yaml_12 does to scalars.
+        text.insert_str(YAML12_DIRECTIVE.len(), "---\n");
+        scalar_off = scalar_off.map(|o| o + 4);
+    }
+    // ---- 2. typed read-back
+    if fail.is_none() {
+        match vcore::obs::catch(|| serde_saphyr::from_str::<C>(&text)) {
+            Err(p) => {
+                cx.violation(&format!("C12:panic:{}", vcore::obs::panic_site(&p)), case, || format!("deserializer panicked on {}: {p}", clip(&text)));
+                return;
+            }
+            Ok(Err(e)) => {
+                fail = Some(Fail {
+                    symptom: "typed-error",
+                    detail: format!(
+                        "typed read-back failed: {} ({})",
+                        vcore::errs::kind(&e),
+                        e.without_snippet().to_string().lines().next().unwrap_or("")
+                    ),
+                })
+            }
+            Ok(Ok(back)) => {
+                if &back != c {
+                    let shown = format!("{back:?}");
+                    fail = Some(Fail { symptom: "typed-differs", detail: format!("typed read-back differs: got {}", clip(&shown)) });
+                } else {
+                    cx.bump("typed_roundtrips_ok");
+                }
+            }
+        }
+    }
+    // ---- 3. untyped read-back
+    if fail.is_none() {
+        if let Some(exp) = &expect {
+            let unspecified = ov.yaml_12 && !ov.quote_all && v.as_str().map(|s| is_yaml11_only_bool(&s)).unwrap_or(false);
+            if unspecified {
+                // yaml_12 documents that YAML 1.1 bool spellings stay unquoted; what an untyped reader
+                // makes of them is not pinned down by the statement.
+                cx.bump("unspecified/yaml12-yaml11-bool-spelling-untyped");
+            } else {
+                match vcore::obs::catch(|| serde_saphyr::from_str::<Val>(&text)) {
+                    Err(p) => {
+                        cx.violation(&format!("C12:panic:{}", vcore::obs::panic_site(&p)), case, || {
+                            format!("deserializer panicked on {}: {p}", clip(&text))
+                        });
+                        return;
+                    }
+                    Ok(Err(e)) => {
+                        fail = Some(Fail { symptom: "untyped-error", detail: format!("untyped read-back failed: {}", vcore::errs::kind(&e)) })
+                    }
+                    Ok(Ok(got)) => {
+                        if !val_matches(exp, &got) {
+                            let g = got.to_string();
+                            fail = Some(Fail {
+                                symptom: untyped_symptom(exp, &got),
+                                detail: format!("untyped read-back differs: expected {} got {}", clip(&exp.to_string()), clip(&g)),
+                            });
+                        } else {
+                            cx.bump("untyped_roundtrips_ok");
+                        }
+                    }
+                }
+            }
+        } else {
+            cx.bump("unspecified/untyped-reading-of-this-kind");
+        }
+    }
+    if let Some(f) = fail {
+        let sig = signature(v, pos, style, scalar_off, &text, &f);
+        *cx.sig_pos_local.entry(format!("{sig} @ {}", pos.name())).or_insert(0) += 1;
+        cx.violation(&sig, case, || {
+            format!("{} | value {} at {} with {} emitted as {}", f.detail, clip(&format!("{v:?}")), pos.name(), ov.label(), clip(&text))
+        });
+    }
+}
+
+/// For a block scalar whose header (`|`/`>`) is at byte `off`: is the first non-empty body line
+/// indented no deeper than the innermost collection entry (`- ` dash or `key:`) that the header line
+/// opens? Then the parser cannot attach the body to the header (layout defect, not a content one).
+fn block_body_under_indented(s: &str, text: &str, off: usize) -> bool {
+    let Some(parent) = header_parent_column(text, off) else { return false };
+    // When the header carries an indentation indicator the emitter wrote the body's absolute
+    // column into it (the body lines themselves start with the content's own blanks).
+    if let Some(d) = text.as_bytes().get(off + 1)
+        && d.is_ascii_digit()
+    {
+        return ((d - b'0') as usize) <= parent;
+    }
+    if s.split('\n').all(|l| l.trim_matches(' ').is_empty()) {
+        return false; // no non-blank body line to measure
+    }
+    let after = match text[off..].find('\n') {
+        Some(i) => &text[off + i + 1..],
+        None => return false,
+    };
+    for l in after.split('\n') {
+        if l.trim_matches(' ').is_empty() {
+            continue;
+        }
+        let ind = l.len() - l.trim_start_matches(' ').len();
+        return ind <= parent;
+    }
+    false
+}
+
+/// Column of the innermost collection entry (`- ` dash or `key:`) opened on the line that carries the
+/// block scalar header at byte `off`; None for a root scalar.
+fn header_parent_column(text: &str, off: usize) -> Option<usize> {
+    let line_start = text[..off].rfind('\n').map(|i| i + 1).unwrap_or(0);
+    let head = &text[line_start..off];
+    let mut col = head.len() - head.trim_start_matches(' ').len();
+    let mut parent: Option<usize> = None;
+    let mut rest = &head[col..];
+    while let Some(r) = rest.strip_prefix("- ") {
+        parent = Some(col);
+        col += 2;
+        rest = r;
+    }
+    if rest.contains(':') || rest.starts_with("? ") {
+        parent = Some(col);
+    }
+    parent
+}
+
+/// The header carries an explicit indentation indicator although the parent entry is not at
+/// column 0: YAML counts the indicator from the parent's indentation, the emitter writes the
+/// absolute column of the body.
+fn indicator_on_nested_block_scalar(text: &str, off: usize) -> bool {
+    let digit = text.as_bytes().get(off + 1).map(|b| b.is_ascii_digit()).unwrap_or(false);
+    digit && header_parent_column(text, off).map(|c| c > 0).unwrap_or(false)
+}
+
+fn is_document_marker(s: &str) -> bool {
+    (s.starts_with("---") || s.starts_with("...")) && (s.len() == 3 || s[3..].starts_with(' '))
+}
+
+/// Deterministic classifier: the failing *class*, not the case.
+fn signature<T: Scalar>(v: &T, pos: Pos, style: Style, off: Option<usize>, text: &str, f: &Fail) -> String {
+    let Some(s) = v.as_str() else {
+        return format!("C12:{}:{}:{}", T::KIND, pos.kind(), f.symptom);
+    };
+    if pos.is_key() && text.lines().any(|l| l.chars().count() > 1024) {
+        // YAML limits an implicit ("simple") key to 1024 characters on one line
+        return "C12:string:key-longer-than-1024".into();
+    }
+    match style {
+        Style::Plain => {
+            if is_document_marker(&s) && matches!(pos, Pos::Root | Pos::MapKey) {
+                // only at column 0 of the document
+                "C12:string:document-marker".into()
+            } else if s == "<<" && pos.is_key() {
+                "C12:string:merge-key".into()
+            } else if s.starts_with('\u{FEFF}') && matches!(pos, Pos::Root | Pos::MapKey) {
+                // only at the very start of the document is a BOM taken for a byte order mark
+                "C12:string:leading-bom".into()
+            } else if s.ends_with(' ') {
+                "C12:string:trailing-space".into()
+            } else if matches!(f.symptom, "reads-as-null" | "reads-as-bool" | "reads-as-number" | "reads-as-special-float") {
+                if s.trim() != s {
+                    // Unicode white space (U+0085, U+00A0, U+2028, …) that the reader trims before
+                    // interpreting the token
+                    format!("C12:string:plain:unicode-whitespace-padding:{}", f.symptom)
+                } else {
+                    format!("C12:string:plain:{}", f.symptom)
+                }
+            } else if pos.is_flow() && !pos.is_key() && s.ends_with(" -") {
+                "C12:string:plain:flow-value:ends-with-space-dash".into()
+            } else {
+                format!("C12:string:plain:{}:{}", pos.kind(), f.symptom)
+            }
+        }
+        Style::Literal | Style::Folded => {
+            if let Some(off) = off {
+                if block_body_under_indented(&s, text, off) {
+                    return format!("C12:string:block-scalar-body-under-indented:{}", pos.name());
+                }
+                if indicator_on_nested_block_scalar(text, off) {
+                    return "C12:string:block-scalar-indentation-indicator-on-nested-node".into();
+                }
+            }
+            let feature = if s.chars().all(|c| c == '\n') {
+                "only-line-breaks"
+            } else if s.chars().any(|c| c.is_control() && c != '\n' && c != '\t') {
+                // CR, NEL, C0/C1 controls, DEL: not representable inside a block scalar
+                "control-char"
+            } else if s.contains('\u{FEFF}') {
+                "bom"
+            } else if s.contains('\t') {
+                "tab"
+            } else if s.split('\n').any(|l| l.starts_with(' ')) {
+                "line-with-leading-space"
+            } else if s.split('\n').any(|l| l.ends_with(' ')) {
+                "line-with-trailing-space"
+            } else {
+                "other"
+            };
+            format!("C12:string:{}:{}", style.name(), feature)
+        }
+        Style::Double | Style::Single | Style::Unknown => {
+            format!("C12:string:{}:{}:{}", style.name(), pos.kind(), f.symptom)
+        }
+    }
+}
+
+fn check_pos<T: Scalar>(cx: &mut Cx, v: &T, pos: Pos, ov: Ov) {
+    if pos.is_key() && !T::KEYABLE {
+        return;
+    }
+    if let Some(why) = v.unspecified_under(&ov) {
+        if !cx.emit_only {
+            cx.bump(why);
+        }
+        return;
+    }
+    // Guards around the scalar are integers (no style decision is ever taken for them), so the
+    // only scalar whose emission can go wrong is the one under test; struct field names and
+    // variant names are fixed ASCII letters.
+    let e = v.val();
+    let vs = |s: &str| Val::Str(s.to_string());
+    let vi = |i: i128| Val::Int(i);
+    let mv = |e: Val, z: i128| Val::Map(vec![(vs("k"), e), (vs("z"), vi(z))]);
+    match pos {
+        Pos::Root => rt(cx, v, pos, ov, &v.clone(), e),
+        Pos::SeqItem => rt(cx, v, pos, ov, &(5u8, v.clone(), 6u8), e.map(|e| Val::Seq(vec![vi(5), e, vi(6)]))),
+        Pos::MapValue => rt(cx, v, pos, ov, &MapVal { k: v.clone(), z: 6 }, e.map(|e| mv(e, 6))),
+        Pos::MapKey => rt(cx, v, pos, ov, &Om(vec![(v.clone(), 6u8)]), e.map(|e| Val::Map(vec![(e, vi(6))]))),
+        Pos::DashFirstKey => {
+            rt(cx, v, pos, ov, &(Om(vec![(v.clone(), 5u8)]), 6u8), e.map(|e| Val::Seq(vec![Val::Map(vec![(e, vi(5))]), vi(6)])))
+        }
+        Pos::NestedMapInSeqValue => rt(
+            cx,
+            v,
+            pos,
+            ov,
+            &Outer { o: vec![MapVal { k: v.clone(), z: 5 }], t: 6 },
+            e.map(|e| Val::Map(vec![(vs("o"), Val::Seq(vec![mv(e, 5)])), (vs("t"), vi(6))])),
+        ),
+        Pos::FlowSeq => rt(cx, v, pos, ov, &FlowSeq((5u8, v.clone(), 6u8)), e.map(|e| Val::Seq(vec![vi(5), e, vi(6)]))),
+        Pos::FlowMapValue => rt(cx, v, pos, ov, &FlowMap(MapVal { k: v.clone(), z: 6 }), e.map(|e| mv(e, 6))),
+        Pos::FlowMapKey => rt(cx, v, pos, ov, &FlowMap(Om(vec![(v.clone(), 6u8)])), e.map(|e| Val::Map(vec![(e, vi(6))]))),
+        Pos::VariantRoot => rt(cx, v, pos, ov, &En::V(v.clone()), e.map(|e| Val::Map(vec![(vs("V"), e)]))),
+        Pos::VariantInSeq => {
+            rt(cx, v, pos, ov, &(En::V(v.clone()), 6u8), e.map(|e| Val::Seq(vec![Val::Map(vec![(vs("V"), e)]), vi(6)])))
+        }
+        Pos::VariantInMap => {
+            rt(cx, v, pos, ov, &MapVal { k: En::V(v.clone()), z: 6 }, e.map(|e| mv(Val::Map(vec![(vs("V"), e)]), 6)))
+        }
+        Pos::StructVariantField => rt(
+            cx,
+            v,
+            pos,
+            ov,
+            &En::S { f: v.clone(), g: 6 },
+            e.map(|e| Val::Map(vec![(vs("S"), Val::Map(vec![(vs("f"), e), (vs("g"), vi(6))]))])),
+        ),
+        Pos::TupleVariantField => {
+            rt(cx, v, pos, ov, &En::T(v.clone(), 6), e.map(|e| Val::Map(vec![(vs("T"), Val::Seq(vec![e, vi(6)]))])))
+        }
+        Pos::TupleStructField => rt(cx, v, pos, ov, &Ts(v.clone(), 6), e.map(|e| Val::Seq(vec![e, vi(6)]))),
+        Pos::SeqUnderMapKey => rt(cx, v, pos, ov, &MapVal { k: (v.clone(), 5u8), z: 6 }, e.map(|e| mv(Val::Seq(vec![e, vi(5)]), 6))),
+        Pos::FlowNested => rt(cx, v, pos, ov, &FlowSeq(vec![MapVal { k: v.clone(), z: 5 }]), e.map(|e| Val::Seq(vec![mv(e, 5)]))),
+    }
+}
+
+/// Check one value in a set of positions under a set of option vectors; count it once as a
+/// distinct non-trivial case if it needs a decision.
+fn check_value<T: Scalar>(cx: &mut Cx, v: &T, positions: &[Pos], ovs: &[Ov]) {
+    for &p in positions {
+        for &o in ovs {
+            check_pos(cx, v, p, o);
+        }
+    }
+    if v.nontrivial() {
+        cx.run.nontrivial(v.stable_hash());
+    }
+}
+
+// ------------------------------------------------------------------ batches of floats
+
+/// A block sequence of many floats: one serialize + one parse for the whole batch, every emitted
+/// line checked against the grammar, every element compared bit for bit.
+fn check_float_batch<T: Scalar + Copy>(cx: &mut Cx, vals: &[T], batch_case: impl Fn() -> J) {
+    cx.evals += 1;
+    let v: Vec<T> = vals.to_vec();
+    let text = match vcore::obs::catch(|| serde_saphyr::to_string(&v)) {
+        Ok(Ok(t)) => t,
+        Ok(Err(e)) => {
+            cx.violation(&format!("C12:{}:serialize-error:batch", T::KIND), &batch_case, || e.to_string());
+            return;
+        }
+        Err(p) => {
+            cx.violation(&format!("C12:panic:{}", vcore::obs::panic_site(&p)), &batch_case, || p.clone());
+            return;
+        }
+    };
+    let mut n = 0usize;
+    let mut bad: Option<usize> = None;
+    for (i, line) in text.lines().enumerate() {
+        n += 1;
+        let ok = line.strip_prefix("- ").map(float_grammar).unwrap_or(false);
+        if !ok && bad.is_none() {
+            bad = Some(i);
+        }
+    }
+    if n != v.len() && bad.is_none() {
+        bad = Some(n.min(v.len().saturating_sub(1)));
+    }
+    let back = vcore::obs::catch(|| serde_saphyr::from_str::<Vec<T>>(&text));
+    if bad.is_none() {
+        match &back {
+            Ok(Ok(b)) => {
+                if b.len() != v.len() {
+                    bad = Some(0);
+                } else {
+                    bad = b.iter().zip(&v).position(|(x, y)| x != y);
+                }
+            }
+            _ => bad = Some(0),
+        }
+    }
+    *cx.local.entry("float_batch_elements_roundtripped").or_insert(0) += v.len() as u64;
+    if let Some(i) = bad {
+        // reduce to the single value (its own replayable case); if that holds, report the batch
+        let before = cx.failures_so_far();
+        let i = i.min(v.len() - 1);
+        check_value(cx, &v[i], &[Pos::Root, Pos::SeqItem], &[DEFAULT_OV]);
+        let after = cx.failures_so_far();
+        if after == before {
+            cx.violation(&format!("C12:{}:batch-only", T::KIND), &batch_case, || {
+                format!(
+                    "batch of {} floats does not round-trip (first bad element #{i} = {:?}) although the element alone does; read-back: {}",
+                    v.len(),
+                    v[i],
+                    match &back {
+                        Ok(Ok(_)) => "Ok(different)".to_string(),
+                        Ok(Err(e)) => vcore::errs::kind(e),
+                        Err(p) => p.clone(),
+                    }
+                )
+            });
+        }
+    }
+}
+
+// ------------------------------------------------------------------ replay
+
+fn replay(run: &Run, case: &J) {
+    let mut cx = Cx::new(run);
+    let kind = case["kind"].as_str().unwrap_or("");
+    let pos = case["pos"].as_str().and_then(Pos::from_name).unwrap_or(Pos::Root);
+    let ov = Ov::from_json(&case["ov"]);
+    let val = &case["value"];
+    macro_rules! go {
+        ($t:ty) => {
+            match <$t as Scalar>::from_json(val) {
+                Some(v) => check_pos(&mut cx, &v, pos, ov),
+                None => {
+                    eprintln!("harness error: replay value not readable as {}", kind);
+                    std::process::exit(2)
+                }
+            }
+        };
+    }
+    match kind {
+        "string" => go!(String),
+        "char" => go!(char),
+        "option-string" => go!(OptStr),
+        "f64" => go!(F64),
+        "f32" => go!(F32),
+        "bool" => go!(bool),
+        "i8" => go!(i8),
+        "i16" => go!(i16),
+        "i32" => go!(i32),
+        "i64" => go!(i64),
+        "i128" => go!(i128),
+        "u8" => go!(u8),
+        "u16" => go!(u16),
+        "u32" => go!(u32),
+        "u64" => go!(u64),
+        "u128" => go!(u128),
+        "unit" => go!(Unit),
+        "bytes" => go!(Bytes),
+        "f32-batch" => {
+            let base = case["base"].as_u64().unwrap_or(0) as u32;
+            let n = case["count"].as_u64().unwrap_or(0) as u32;
+            let v: Vec<F32> = (0..n).map(|i| F32(f32::from_bits(base.wrapping_add(i)))).collect();
+            check_float_batch(&mut cx, &v, || case.clone());
+        }
+        "f64-batch" => {
+            let v: Vec<F64> = case["bits"].as_array().map(|a| a.iter().filter_map(F64::from_json).collect()).unwrap_or_default();
+            check_float_batch(&mut cx, &v, || case.clone());
+        }
+        other => {
+            eprintln!("harness error: unknown replay kind {other:?}");
+            std::process::exit(2)
+        }
+    }
+}
+
+// ------------------------------------------------------------------ main
+
+const BYTES_POS: [Pos; 9] = [
+    Pos::Root,
+    Pos::SeqItem,
+    Pos::MapValue,
+    Pos::NestedMapInSeqValue,
+    Pos::FlowSeq,
+    Pos::FlowMapValue,
+    Pos::VariantRoot,
+    Pos::VariantInMap,
+    Pos::StructVariantField,
+];
+
+fn main() {
+    let run = Run::from_args("C12");
+    if let Some(rep) = run.is_replay() {
+        replay(&run, &rep["case"]);
+        run.finish(Finish::new("replay"));
+    }
+    // debugging aid: C12_STR='"json string"' runs one string through every position and curated vector
+    if let Ok(js) = std::env::var("C12_STR") {
+        let s: String = serde_json::from_str(&js).expect("C12_STR must be a JSON string literal");
+        let mut cx = Cx::new(&run);
+        check_value(&mut cx, &s, &Pos::ALL, &CURATED);
+        drop(cx);
+        run.finish(Finish::new("single string (debug)"));
+    }
+    let tier = run.tier;
+    let thorough = tier == Tier::Thorough;
+    let seed = run.seed;
+    let only: Option<String> = std::env::var("C12_ONLY").ok();
+    let want = |part: &str| only.as_deref().map(|o| o.contains(part)).unwrap_or(true);
+    let t0 = std::time::Instant::now();
+    let lap = |name: &str| {
+        if std::env::var_os("C12_TIMING").is_some() {
+            eprintln!("[c12] {name} done at {:.1}s", t0.elapsed().as_secs_f64());
+        }
+    };
+
+    // ---- A. exhaustive strings over the 32-symbol adversarial alphabet
+    let max_len = tier.pick(3, 4);
+    let total = gens::count_upto(gens::ADV.len(), max_len);
+    const PER: usize = 16;
+    if want("A") {
+        par_range(total.div_ceil(PER), |ci| {
+            let mut cx = Cx::new(&run);
+            for idx in (ci * PER)..((ci + 1) * PER).min(total) {
+                let s = gens::nth_string(&gens::ADV, idx);
+                check_value(&mut cx, &s, &Pos::ALL, &CURATED);
+                cx.bump("strings_adversarial_exhaustive");
+                if idx % 20011 == 0 {
+                    run.sample(|| json!({"kind": "string", "value": s, "positions": "all 17", "option_vectors": "12 curated"}));
+                }
+            }
+        });
+        lap("A exhaustive adversarial strings");
+    }
+
+    // ---- B. exhaustive number look-alikes
+    let num_len = tier.pick(4, 5);
+    let total_num = gens::count_upto(gens::NUM.len(), num_len);
+    let num_pos = [Pos::Root, Pos::MapValue, Pos::MapKey, Pos::FlowSeq, Pos::FlowMapKey];
+    let num_ovs = [CURATED[0], CURATED[5]];
+    if want("B") {
+        par_range(total_num.div_ceil(64), |ci| {
+            let mut cx = Cx::new(&run);
+            for idx in (ci * 64)..((ci + 1) * 64).min(total_num) {
+                let s = gens::nth_string(&gens::NUM, idx);
+                check_value(&mut cx, &s, &num_pos, &num_ovs);
+                check_value(&mut cx, &OptStr(Some(s.clone())), &[Pos::Root, Pos::MapValue], &[DEFAULT_OV]);
+                cx.bump("strings_number_lookalike_exhaustive");
+                if idx % 50021 == 0 {
+                    run.sample(|| json!({"kind": "string", "value": s, "family": "number look-alike"}));
+                }
+            }
+        });
+        lap("B number look-alikes");
+    }
+
+    // ---- C. word look-alikes with prefixes / suffixes
+    if want("C") {
+        let looks = gens::lookalikes();
+        let look_ovs = [CURATED[0], CURATED[4], CURATED[5], CURATED[7]];
+        par_range(looks.len().div_ceil(32), |ci| {
+            let mut cx = Cx::new(&run);
+            for s in &looks[(ci * 32)..((ci + 1) * 32).min(looks.len())] {
+                check_value(&mut cx, s, &Pos::CORE, &look_ovs);
+                check_value(&mut cx, &OptStr(Some(s.clone())), &[Pos::Root, Pos::MapValue, Pos::FlowSeq], &[DEFAULT_OV]);
+                cx.bump("strings_lookalike");
+            }
+        });
+        let mut cx = Cx::new(&run);
+        check_value(&mut cx, &OptStr(None), &Pos::ALL, &CURATED);
+        lap("C word look-alikes");
+    }
+
+    // ---- D. short adversarial pieces pushed into the long-string paths
+    if want("D") {
+        let n_pieces = gens::count_upto(gens::ADV.len(), 2);
+        let pad_pos = [
+            Pos::Root,
+            Pos::SeqItem,
+            Pos::MapValue,
+            Pos::MapKey,
+            Pos::NestedMapInSeqValue,
+            Pos::VariantInMap,
+            Pos::FlowSeq,
+            Pos::TupleStructField,
+        ];
+        let pad_ovs = [CURATED[0], CURATED[3], CURATED[6], CURATED[9]];
+        par_range(n_pieces, |i| {
+            let mut cx = Cx::new(&run);
+            let piece = gens::nth_string(&gens::ADV, i);
+            for s in gens::padded(&piece) {
+                check_value(&mut cx, &s, &pad_pos, &pad_ovs);
+                cx.bump("strings_padded_long");
+            }
+        });
+        lap("D padded long strings");
+    }
+
+    // ---- E. random strings up to 4 KiB, random position, random option vector from the full grid
+    if want("E") {
+        let n_random = tier.pick(40_000, 1_200_000);
+        par_range(n_random, |i| {
+            let mut cx = Cx::new(&run);
+            let mut rng = Rng::stream(seed, i as u64);
+            let s = gens::random_string(&mut rng, 4096);
+            for _ in 0..3 {
+                let pos = *rng.pick(&Pos::ALL);
+                let ov = Ov::random(&mut rng);
+                check_pos(&mut cx, &s, pos, ov);
+            }
+            if s.nontrivial() {
+                run.nontrivial(s.stable_hash());
+            }
+            cx.bump("strings_random");
+            if i % 64 == 0 {
+                cx.run.max("longest_random_string_chars", s.chars().count() as u64);
+            }
+            if i % 9973 == 0 {
+                run.sample(|| json!({"kind": "string", "value": s.chars().take(120).collect::<String>(), "chars": s.chars().count(), "family": "random"}));
+            }
+        });
+        lap("E random strings");
+    }
+
+    // ---- F. chars
+    if want("F") {
+        let char_ovs = [CURATED[0], CURATED[4], CURATED[7]];
+        let n_cp = 0x110000usize;
+        par_range(n_cp.div_ceil(256), |ci| {
+            let mut cx = Cx::new(&run);
+            for cp in (ci * 256)..((ci + 1) * 256).min(n_cp) {
+                let Some(c) = char::from_u32(cp as u32) else { continue };
+                let special =
+                    cp < 0x3100 || (0xD700..0xE100).contains(&cp) || (0xFE00..0x10100).contains(&cp) || cp >= 0x10FF00 || cp % 0x10000 >= 0xFFF0;
+                if !(thorough || special || (cp as u64 + seed) % 61 == 0) {
+                    continue;
+                }
+                check_value(&mut cx, &c, &[Pos::Root], &char_ovs);
+                if thorough || special {
+                    check_value(&mut cx, &c, &[Pos::MapKey, Pos::FlowSeq, Pos::MapValue], &[DEFAULT_OV]);
+                }
+                cx.bump("chars_checked");
+            }
+        });
+        lap("F chars");
+    }
+
+    // ---- G. f32: all bit patterns (thorough) / strided batches (quick), in batches of 4096
+    if want("G") {
+        const FB: usize = 4096;
+        let n_batches = (1usize << 32) / FB;
+        let stride = tier.pick(251usize, 1);
+        let n_sel = n_batches.div_ceil(stride);
+        par_range(n_sel, |j| {
+            let mut cx = Cx::new(&run);
+            let b = (j * stride + (seed as usize % stride)) % n_batches;
+            let base = (b * FB) as u32;
+            let v: Vec<F32> = (0..FB as u32).map(|i| F32(f32::from_bits(base + i))).collect();
+            check_float_batch(&mut cx, &v, || json!({"kind": "f32-batch", "base": base, "count": FB}));
+            run.nontrivial(fnv_parts(&[b"f32-batch", &base.to_le_bytes()]));
+            *cx.local.entry("f32_bit_patterns_roundtripped").or_insert(0) += FB as u64;
+        });
+        // f32 singly in every position
+        let mut f32s = gens::f32_boundaries();
+        {
+            let mut rng = Rng::stream(seed, 0xF32);
+            for _ in 0..tier.pick(3_000, 60_000) {
+                f32s.push(f32::from_bits(rng.next_u64() as u32));
+            }
+        }
+        par_range(f32s.len(), |i| {
+            let mut cx = Cx::new(&run);
+            let ovs: &[Ov] = if i % 8 == 0 { &CURATED } else { &CURATED[..2] };
+            check_value(&mut cx, &F32(f32s[i]), &Pos::ALL, ovs);
+            cx.bump("f32_single_values");
+        });
+        lap("G f32");
+    }
+
+    // ---- H. f64: boundaries in every position; random bit patterns in batches
+    if want("H") {
+        let f64b = gens::f64_boundaries();
+        par_range(f64b.len(), |i| {
+            let mut cx = Cx::new(&run);
+            let ovs: &[Ov] = if i % 8 == 0 { &CURATED } else { &CURATED[..2] };
+            check_value(&mut cx, &F64(f64b[i]), &Pos::ALL, ovs);
+            cx.bump("f64_boundary_values");
+        });
+        let n_f64_batches = tier.pick(300, 10_000);
+        par_range(n_f64_batches, |i| {
+            let mut cx = Cx::new(&run);
+            let mut rng = Rng::stream(seed, 0xF64_0000 + i as u64);
+            let v: Vec<F64> = (0..1024)
+                .map(|_| {
+                    let bits = rng.next_u64();
+                    // half uniform bit patterns, half "decimal-looking" doubles
+                    if rng.bool() {
+                        F64(f64::from_bits(bits))
+                    } else {
+                        F64(((bits % 2_000_000_000) as f64 - 1e9) / [1.0, 10.0, 100.0, 1e3, 1e6, 1e9][(bits >> 40) as usize % 6])
+                    }
+                })
+                .collect();
+            check_float_batch(&mut cx, &v, || json!({"kind": "f64-batch", "bits": v.iter().map(|x| x.to_json()).collect::<Vec<_>>()}));
+            *cx.local.entry("f64_random_roundtripped").or_insert(0) += v.len() as u64;
+            run.nontrivial(fnv_parts(&[b"f64-batch", &(i as u64).to_le_bytes(), &seed.to_le_bytes()]));
+            // a few of them singly, random position and options
+            for k in 0..8 {
+                let pos = *rng.pick(&Pos::ALL);
+                let ov = Ov::random(&mut rng);
+                check_pos(&mut cx, &v[k * 100], pos, ov);
+                run.nontrivial(v[k * 100].stable_hash());
+            }
+        });
+        lap("H f64");
+    }
+
+    // ---- I. integers of every width, bool, unit
+    if want("I") {
+        let (sints, uints) = gens::int_boundaries();
+        let int_ovs = [CURATED[0], CURATED[1], CURATED[4], CURATED[5], CURATED[11]];
+        par_range(sints.len(), |i| {
+            let mut cx = Cx::new(&run);
+            let x = sints[i];
+            check_value(&mut cx, &x, &Pos::ALL, &int_ovs);
+            macro_rules! narrow {
+                ($($t:ty),*) => {$(
+                    if let Ok(y) = <$t>::try_from(x) { check_value(&mut cx, &y, &Pos::ALL, &int_ovs[..2]); }
+                )*};
+            }
+            narrow!(i8, i16, i32, i64);
+            cx.bump("signed_int_boundary_values");
+        });
+        par_range(uints.len(), |i| {
+            let mut cx = Cx::new(&run);
+            let x = uints[i];
+            check_value(&mut cx, &x, &Pos::ALL, &int_ovs);
+            macro_rules! narrow {
+                ($($t:ty),*) => {$(
+                    if let Ok(y) = <$t>::try_from(x) { check_value(&mut cx, &y, &Pos::ALL, &int_ovs[..2]); }
+                )*};
+            }
+            narrow!(u8, u16, u32, u64);
+            cx.bump("unsigned_int_boundary_values");
+        });
+        let mut cx = Cx::new(&run);
+        for b in [true, false] {
+            check_value(&mut cx, &b, &Pos::ALL, &CURATED);
+        }
+        check_value(&mut cx, &Unit(()), &Pos::ALL, &CURATED);
+        for w in i8::MIN..=i8::MAX {
+            check_value(&mut cx, &w, &[Pos::Root, Pos::MapKey, Pos::FlowSeq], &[DEFAULT_OV]);
+        }
+        for w in u8::MIN..=u8::MAX {
+            check_value(&mut cx, &w, &[Pos::Root, Pos::MapKey, Pos::FlowSeq], &[DEFAULT_OV]);
+        }
+        lap("I ints, bool, unit");
+    }
+
+    // ---- K. byte arrays: all of length <= 2, random longer
+    if want("K") {
+        let n_small: usize = 1 + 256 + 65536;
+        let bytes_ovs = [CURATED[0], CURATED[8]];
+        par_range(n_small.div_ceil(64), |ci| {
+            let mut cx = Cx::new(&run);
+            for idx in (ci * 64)..((ci + 1) * 64).min(n_small) {
+                let b: Vec<u8> = if idx == 0 {
+                    vec![]
+                } else if idx <= 256 {
+                    vec![(idx - 1) as u8]
+                } else {
+                    let x = idx - 257;
+                    vec![(x >> 8) as u8, x as u8]
+                };
+                check_value(&mut cx, &Bytes(serde_bytes::ByteBuf::from(b)), &BYTES_POS, &bytes_ovs);
+                cx.bump("byte_arrays_exhaustive");
+            }
+        });
+        let n_rb = tier.pick(2_000, 60_000);
+        par_range(n_rb, |i| {
+            let mut cx = Cx::new(&run);
+            let mut rng = Rng::stream(seed, 0xB17E5_0000 + i as u64);
+            let len = if rng.chance(1, 8) { rng.range(256, 4096) } else { rng.range(3, 64) };
+            let b: Vec<u8> = (0..len).map(|_| rng.next_u64() as u8).collect();
+            let pos = *rng.pick(&BYTES_POS);
+            let ov = Ov::random(&mut rng);
+            let v = Bytes(serde_bytes::ByteBuf::from(b));
+            check_pos(&mut cx, &v, pos, ov);
+            run.nontrivial(v.stable_hash());
+            cx.bump("byte_arrays_random");
+        });
+        lap("K bytes");
+    }
+
+    // ---- evidence
+    {
+        let m = SIG_COUNTS.lock().unwrap();
+        for (sig, n) in m.iter() {
+            run.count(&format!("failing_cases_by_signature/{sig}"), *n);
+        }
+    }
+    {
+        let m = SIG_POS_COUNTS.lock().unwrap();
+        for (k, n) in m.iter() {
+            run.count(&format!("failing_cases_by_signature_and_position/{k}"), *n);
+        }
+    }
+    for o in CURATED {
+        run.observe("option_vectors_curated", &o.label());
+    }
+    for p in Pos::ALL {
+        run.observe("positions", p.name());
+    }
+    let scope = format!(
+        "strings: all {} strings of length <= {} over the 32-symbol adversarial alphabet x 17 positions x 12 curated option vectors; all {} strings of length <= {} over the 18-symbol number look-alike alphabet x 5 positions x {{default, yaml_12}}; chars: {}; f32: {}; byte arrays: all 65 793 arrays of length <= 2 x 9 positions x 2 option vectors; i8/u8: all values at root, map key, flow item",
+        total,
+        max_len,
+        total_num,
+        num_len,
+        if thorough {
+            "all 1 112 064 scalar values at root x 3 option vectors and as map key / map value / flow item"
+        } else {
+            "all scalar values below U+3100 and around the surrogate gap, U+FE00..U+100FF, plane ends (others sampled 1/61)"
+        },
+        if thorough {
+            "all 2^32 bit patterns (batched block sequences of 4096)"
+        } else {
+            "1/251 of the 2^32 bit patterns in whole batches of 4096 consecutive patterns (not exhaustive)"
+        },
+    );
+    let fin = Finish::new(
+        "a value counts as non-trivial when the emitter has to take a decision for it: a string/char that is empty, contains a non-letter or is a reserved word (null/true/yes/…); any float; any byte array; (integers, bool, unit are executed but not counted). Distinct by hash(kind, value); each distinct value is executed in up to 17 positions x 12 option vectors. Float batches count once per batch of 4096 / 1024 values.",
+    )
+    .exhaustive(scope)
+    .assume("reading is done with serde_saphyr::from_str and default Options (the statement's 'deserializes back')")
+    .assume("yaml_12 output is additionally read with '---' inserted after the %YAML directive (the missing marker itself is reported under C12:yaml12:directive-without-document-start), so the scalar oracles keep watching yaml_12 emission")
+    .assume("untyped reading of non-finite floats, of integers outside i64/u64, of !!binary scalars, and of YAML 1.1 bool spellings emitted under yaml_12 is unspecified by the statement (typed identity is still checked)")
+    .min_nontrivial(if only.is_some() { 2 } else { tier.pick(100_000, 1_000_000) });
+    run.finish(fin);
 }
